@@ -1,11 +1,25 @@
 """C16 — a context always shows the last locale set; sub-contexts are isolated.
-Theorems: lean/I18nVerif/Theorems/C16.lean.  Correspondence: harness ctx_h (`ops`: a tree of real `I18nContext`s under
-`ssr`, scoped views through `scope_i18n!` / `I18nContext::scope`, `t!` / `t_string!` / `tu_string!` / `t_display!` /
-`td_string!` closures re-invoked) vs the Lean cell machine `Context.run`; property oracle = the history specification
-`Context.Spec.observations`, compared with the implementation's observation after every step."""
+Theorems: lean/I18nVerif/Theorems/C16.lean, C16Ticks.lean (ticks are invisible).  Correspondence: harness ctx_h (`ops`: a
+tree of real `I18nContext`s, scoped views through `scope_i18n!` / `I18nContext::scope`, `t!` / `t_string!` / `tu_string!` /
+`t_display!` / `td_string!` closures re-invoked) vs the Lean cell machine `Context.run`; property oracle = the history
+specification `Context.Spec.observations`, compared with the implementation's observation after every step.
+
+Every sequence runs on TWO builds of the harness: `plain` (leptos `ssr`: `Effect` / `RenderEffect` are inert) and `effects`
+(`--features effects` = reactive_graph's `effects`, own target dir `harness/target-effects`: effects run natively on the
+harness' deterministic executor, as under `csr` / `hydrate` in the browser).  The step `tick` (= run the executor until idle;
+the only moment spawned effect futures are polled: requests are sent with `drain_each: false`) is placed densely after
+creations and sets and at random positions; model and specification treat it as the identity (`C16_ticks_invisible`).  A
+self-test (`effects_selftest`) makes sure effects really run in the effects build and really do not in the plain one."""
 from .common import *
 
-RULE = ("random operation sequences (1..200 operations) over {make_memo(view, kind in locale/t_string/td_string/t_display/t_plural), "
+RULE = ("every sequence is run on BOTH builds of the harness (plain `ssr`: effects inert; `effects`: Effect/RenderEffect run natively on "
+        "the deterministic executor) with `tick` steps (= run the executor until idle; the executor runs at ticks only) inserted "
+        "in one of four modes {hot: 3/5 after new_root/sub/provider/provide_root/provide_again/set/set_untracked and 1/12 elsewhere; "
+        "random: 1/5 anywhere, sometimes doubled, sometimes first; each: after every step; none: only the explicit ones}, plus the "
+        "composite patterns 'create a context; set it in the same turn (possibly through a fresh scoped view); tick; read' and "
+        "'create a sub-context / sub-provider (mostly without initial locale); optionally set it; set the PARENT; tick; read child "
+        "and parent', and a closing 'tick; get_untracked of every view' compared with the specification; "
+        "random operation sequences (1..200 operations before ticks) over {make_memo(view, kind in locale/t_string/td_string/t_display/t_plural), "
         "read_memo(i), provide_root (the real <I18nContextProvider>), provide_again(owner) (a nested <I18nContextProvider>: must hand over the existing context), child_owner(owner), provider(owner, optional initial "
         "locale) (the real <I18nSubContextProvider>, children capture use_i18n() and their owner), use_ctx(owner), and the "
         "composite pattern 'set_locale_untracked(x); set_locale(x) through a view of the same context; read earlier memos'} "
@@ -54,7 +68,8 @@ def gen_sequence(rng, names, maxlen, tracked_only=False):
                                (8, "make_memo"), (16 if nmemos else 0, "read_memo"),
                                (0 if tracked_only or not nmemos else 8, "pattern_same_value"),
                                (3 if nowners else 0, "child_owner"), (7 if nowners else 0, "provider"),
-                               (9 if nowners else 0, "use_ctx"), (4 if nowners else 0, "provide_again")])
+                               (9 if nowners else 0, "use_ctx"), (4 if nowners else 0, "provide_again"),
+                               (7, "create_set_tick"), (7, "parent_set_tick")])
         if op == "new_root":
             steps.append({"op": "new_root", "accept_language": rng.pick(names) if rng.chance(4, 5) else None})
             new_view()
@@ -114,7 +129,101 @@ def gen_sequence(rng, names, maxlen, tracked_only=False):
             # a nested `<I18nContextProvider>`: its children get the context already provided above (the model's `use_ctx`)
             steps.append({"op": "provide_again", "owner": rng.below(nowners)})
             new_view()
+        elif op == "create_set_tick":
+            # a context created and set in the same turn of the event loop (what a component does when it derives the
+            # locale from the URL while it is being rendered), then the executor runs, then reads: the set must win
+            how = rng.weighted([(3, "new_root"), (2, "provide_root"), (3, "sub"), (3 if nowners else 0, "provider")])
+            if how in ("new_root", "provide_root"):
+                steps.append({"op": how, "accept_language": rng.pick(names) if rng.chance(1, 2) else None})
+                nowners += how == "provide_root"
+            elif how == "sub":
+                steps.append({"op": "sub", "parent": rng.below(nviews), "initial": rng.pick(names) if rng.chance(1, 3) else None})
+            else:
+                steps.append({"op": "provider", "owner": rng.below(nowners), "initial": rng.pick(names) if rng.chance(1, 3) else None})
+                nowners += 1
+            nv = nviews
+            new_view()
+            via = nv
+            if rng.chance(1, 3):
+                steps.append({"op": "scope", "view": nv})
+                via = nviews
+                new_view(nv)
+            if rng.chance(1, 3):
+                steps.append({"op": "make_closure", "view": via, "kind": rng.pick(KINDS)})
+                nclosures += 1
+            for _ in range(rng.range(1, 2)):
+                steps.append({"op": "set" if tracked_only or rng.chance(2, 3) else "set_untracked", "view": rng.pick([nv, via]),
+                              "locale": rng.pick(names)})
+            steps.append({"op": "tick"})
+            steps.append({"op": rng.pick(["get", "get_untracked"]), "view": rng.pick([nv, via])})
+            if nclosures and rng.chance(1, 2):
+                steps.append({"op": "call_closure", "closure": nclosures - 1})
+        elif op == "parent_set_tick":
+            # a sub-context (plain or through the real provider component), then the PARENT is set, then the executor
+            # runs: the sub-context must not follow (and must keep its own explicit set, if any)
+            initial = rng.pick(names) if rng.chance(1, 4) else None
+            if nowners and rng.chance(1, 2):
+                o = rng.below(nowners)
+                steps.append({"op": "use_ctx", "owner": o})          # a view of the parent context
+                pv = nviews
+                new_view()
+                steps.append({"op": "provider", "owner": o, "initial": initial})
+                nowners += 1
+            else:
+                pv = rng.below(nviews)
+                steps.append({"op": "sub", "parent": pv, "initial": initial})
+            child = nviews
+            new_view()
+            if rng.chance(1, 4):
+                steps.append({"op": "tick"})
+            if rng.chance(1, 2):
+                steps.append({"op": "set" if tracked_only or rng.chance(2, 3) else "set_untracked", "view": child, "locale": rng.pick(names)})
+                if rng.chance(1, 3):
+                    steps.append({"op": "tick"})
+            for _ in range(rng.range(1, 2)):
+                steps.append({"op": "set", "view": same_ctx_view(pv), "locale": rng.pick(names)})
+            steps.append({"op": "tick"})
+            steps.append({"op": rng.pick(["get", "get_untracked"]), "view": child})
+            steps.append({"op": "get", "view": pv})
     return steps
+
+
+TICK = {"op": "tick"}
+HOT = {"new_root", "sub", "provider", "provide_root", "provide_again", "set", "set_untracked"}
+TICK_MODES = ["hot", "hot", "hot", "random", "random", "each", "none", "none"]
+VIEW_MAKERS = {"new_root", "sub", "scope", "provide_root", "provider", "use_ctx", "provide_again"}
+
+
+def add_ticks(rng, steps, mode):
+    """insert `tick` steps (the executor runs at ticks only): hot = densely right after creations and sets (where an effect
+    scheduled by the creation / the set would run), random = anywhere, each = after every step (every step in its own turn
+    of the event loop), none = only the ticks the composite patterns already contain"""
+    out = []
+    if mode == "random" and rng.chance(1, 4):
+        out.append(dict(TICK))
+    for st in steps:
+        out.append(st)
+        if st["op"] == "tick":
+            continue
+        if mode == "each":
+            out.append(dict(TICK))
+        elif mode == "hot":
+            if rng.chance(3, 5) if st["op"] in HOT else rng.chance(1, 12):
+                out.append(dict(TICK))
+                if rng.chance(1, 6):
+                    out.append(dict(TICK))
+        elif mode == "random":
+            if rng.chance(1, 5):
+                out.append(dict(TICK))
+                if rng.chance(1, 4):
+                    out.append(dict(TICK))
+    return out
+
+
+def close_sequence(steps):
+    """a last turn of the event loop, then every view is read: whatever an effect did late is observed (against the spec)"""
+    nviews = sum(1 for st in steps if st["op"] in VIEW_MAKERS)
+    return steps + [dict(TICK)] + [{"op": "get_untracked", "view": v} for v in range(nviews)]
 
 
 def corpus(names):
@@ -242,6 +351,48 @@ def corpus(names):
     return seqs
 
 
+def tick_corpus(names):
+    """hand-written sequences around the turns of the event loop (the explicit ticks stay in every tick mode)"""
+    T = {"op": "tick"}
+    seqs = []
+    # a context set in the turn it was created in, then the executor runs; then more set / tick rounds through scoped views
+    s = [{"op": "new_root", "accept_language": None}, {"op": "set", "view": 0, "locale": "fr"}, T, {"op": "get", "view": 0},
+         {"op": "scope", "view": 0}, {"op": "make_closure", "view": 1, "kind": "t"}, {"op": "make_closure", "view": 0, "kind": "t_string"},
+         {"op": "call_closure", "closure": 0}, {"op": "call_closure", "closure": 1},
+         {"op": "set", "view": 1, "locale": "de"}, T, {"op": "get", "view": 0}, {"op": "call_closure", "closure": 0},
+         {"op": "set_untracked", "view": 0, "locale": "en-US"}, T, T, {"op": "get_untracked", "view": 1}, {"op": "call_closure", "closure": 1},
+         {"op": "new_root", "accept_language": "de"}, {"op": "scope", "view": 2}, {"op": "set_untracked", "view": 3, "locale": "fr-CA"},
+         {"op": "make_memo", "view": 2, "kind": "locale"}, T, {"op": "read_memo", "memo": 0}, {"op": "get", "view": 2}]
+    seqs.append(s)
+    # the same for every way of creating a context: created, set at once, tick, read
+    s = [{"op": "provide_root", "accept_language": "fr"}, {"op": "set", "view": 0, "locale": "de"}, T, {"op": "get", "view": 0},
+         {"op": "provider", "owner": 0, "initial": None}, {"op": "set", "view": 1, "locale": "en-US"}, T, {"op": "get", "view": 1}, {"op": "get", "view": 0},
+         {"op": "provider", "owner": 0, "initial": "fr-CA"}, {"op": "set_untracked", "view": 2, "locale": "fr"}, T, {"op": "get", "view": 2},
+         {"op": "sub", "parent": 0, "initial": None}, {"op": "set", "view": 3, "locale": "fr-CA"}, T, {"op": "get", "view": 3},
+         {"op": "sub", "parent": None, "initial": None}, {"op": "set", "view": 4, "locale": "de"}, T, {"op": "get", "view": 4},
+         {"op": "sub", "parent": 3, "initial": "en"}, {"op": "scope", "view": 5}, {"op": "set", "view": 6, "locale": "fr"}, T, {"op": "get", "view": 5}]
+    seqs.append(s)
+    # a sub-context does not follow its parent: parent set in the turn the sub-context was created in / a later turn,
+    # the sub-context's own explicit set survives a later parent set, siblings stay apart
+    s = [{"op": "new_root", "accept_language": "fr"}, T, {"op": "sub", "parent": 0, "initial": None}, {"op": "set", "view": 0, "locale": "de"}, T,
+         {"op": "get", "view": 1}, {"op": "get", "view": 0},
+         {"op": "set", "view": 1, "locale": "en-US"}, T, {"op": "set", "view": 0, "locale": "fr-CA"}, T, {"op": "get", "view": 1}, {"op": "get", "view": 0},
+         {"op": "sub", "parent": 0, "initial": None}, T, {"op": "set", "view": 0, "locale": "en"}, T, {"op": "get", "view": 2}, {"op": "get", "view": 1},
+         {"op": "sub", "parent": 1, "initial": None}, {"op": "set", "view": 1, "locale": "de"}, {"op": "set", "view": 0, "locale": "fr"}, T,
+         {"op": "get", "view": 3}, {"op": "get", "view": 2}, {"op": "get", "view": 1}, {"op": "get", "view": 0}]
+    seqs.append(s)
+    # the same through the real components: provider under a provided root, parent found with use_i18n() and set
+    s = [{"op": "provide_root", "accept_language": "de"}, {"op": "provider", "owner": 0, "initial": None}, {"op": "use_ctx", "owner": 0},
+         {"op": "set", "view": 2, "locale": "fr"}, T, {"op": "get", "view": 1}, {"op": "get", "view": 0},
+         {"op": "make_memo", "view": 1, "kind": "t_string"}, {"op": "read_memo", "memo": 0},
+         {"op": "set", "view": 0, "locale": "en-US"}, T, {"op": "read_memo", "memo": 0}, {"op": "get", "view": 1},
+         {"op": "provider", "owner": 1, "initial": None}, {"op": "set", "view": 1, "locale": "fr-CA"}, {"op": "set", "view": 0, "locale": "en"}, T,
+         {"op": "get", "view": 3}, {"op": "get", "view": 1}, {"op": "use_ctx", "owner": 2}, {"op": "get", "view": 4},
+         {"op": "set", "view": 3, "locale": "de"}, T, {"op": "set", "view": 1, "locale": "fr"}, T, {"op": "get", "view": 4}, {"op": "read_memo", "memo": 0}]
+    seqs.append(s)
+    return seqs
+
+
 def to_model(steps, idx):
     out = []
     for s in steps:
@@ -272,6 +423,10 @@ def to_model(steps, idx):
 def impl_obs(step, o, levels, idx, mlevels=None):
     """normalise one observation of the harness into the model's vocabulary; returns (obs, error or None)"""
     op = step["op"]
+    if op == "tick":
+        if not (isinstance(o, dict) and o.get("tick") is True):
+            return {"text": o}, f"tick answered {o!r}"
+        return None, None
     if op == "make_memo":
         mlevels.append((o["level"], step["kind"]))
         return {"memo": o["memo"]}, None
@@ -327,113 +482,295 @@ def nontrivial(steps):
     return False
 
 
-def evaluate(ctx, binr, names, idx, seqs, record=True):
-    impl = run_lines_resilient(binr, [{"op": "ops", "steps": s} for s in seqs])
+BUILDS = [("plain", None, None), ("effects", ["effects"], "effects")]
+
+
+def judge(s, r, m, names, idx):
+    """one sequence on one build: (spec_bad, model_bad); spec_bad = (step, impl obs, spec obs, why)"""
+    levels, mlevels = [], []
+    spec_bad = model_bad = None
+    if len(r["obs"]) != len(s):
+        raise HarnessError("harness answered %d observations for %d steps" % (len(r["obs"]), len(s)))
+    for k, (st, o) in enumerate(zip(s, r["obs"])):
+        io, err = impl_obs(st, o, levels, idx, mlevels)
+        so, mo = m["spec"][k], m["model"][k]
+        if isinstance(io, dict) and "plural0" in io:
+            # `t_plural!` accessors show the plural category of 0 in the locale the spec / the model says is current
+            so = {"plural0": CAT0[names[so["locale"]]]} if isinstance(so, dict) and "locale" in so else so
+            mo = {"plural0": CAT0[names[mo["locale"]]]} if isinstance(mo, dict) and "locale" in mo else mo
+        if err or io != so:
+            spec_bad = (k, io, so, err)
+            break
+        if io != mo:
+            model_bad = (k, io, mo)
+            break
+    if not spec_bad and not model_bad:
+        fin = [idx[x] for x in r["final"]]
+        if fin != m["final"]:
+            model_bad = ("final", fin, m["final"])
+    return spec_bad, model_bad
+
+
+def is_panic(r):
+    return "panic" in r or "crash" in r or "bad_op" in r or "bad_line" in r
+
+
+def req_of(s):
+    # the executor runs at `tick` steps only (and once before the harness' own final read-back)
+    return {"op": "ops", "drain_each": False, "steps": s}
+
+
+# ------------------------------------------------------------------ minimisation of a failing sequence
+
+REFS = {"view": "view", "parent": "view", "closure": "closure", "memo": "memo", "owner": "owner"}
+
+
+def makes(st):
+    op = st["op"]
+    out = []
+    if op in VIEW_MAKERS:
+        out.append("view")
+    if op == "make_closure":
+        out.append("closure")
+    if op == "make_memo":
+        out.append("memo")
+    if op in ("provide_root", "provider", "child_owner"):
+        out.append("owner")
+    return out
+
+
+def remove_step(steps, i):
+    """the sequence without step i, later indices renumbered; None when a later step refers to something step i created"""
+    made = makes(steps[i])
+    ids = {}
+    for kind in made:
+        ids[kind] = sum(1 for st in steps[:i] if kind in makes(st))
+    out = list(steps[:i])
+    for st in steps[i + 1:]:
+        st2 = dict(st)
+        for field, kind in REFS.items():
+            if kind in ids and st.get(field) is not None and field in st:
+                if st[field] == ids[kind]:
+                    return None
+                if st[field] > ids[kind]:
+                    st2[field] = st[field] - 1
+        out.append(st2)
+    return out
+
+
+def minimise(binr, names, idx, steps, opname, budget=160):
+    """greedy removal of windows of 16, 8, 4, 2, 1 steps (from the back; references renumbered) keeping 'a step with the
+    same operation violates the specification on this build'; at most `budget` harness runs"""
+    runs = [0]
+
+    def fails(cand):
+        runs[0] += 1
+        (r,), _ = run_lines(binr, [req_of(cand)])
+        if is_panic(r):
+            return None
+        (m,) = lean_driver([{"op": "ctx.ops", "steps": to_model(cand, idx)}])
+        sb, _mb = judge(cand, r, m, names, idx)
+        if sb and cand[sb[0]]["op"] == opname:
+            return cand[:sb[0] + 1]
+        return None
+
+    cur = steps                      # the last step is the failing one and stays
+    for size in (16, 8, 4, 2, 1):
+        hi = len(cur) - 1
+        while hi > 0 and runs[0] < budget:
+            lo = max(0, hi - size)
+            cand = cur
+            for j in range(hi - 1, lo - 1, -1):
+                c2 = remove_step(cand, j)
+                if c2 is not None:
+                    cand = c2
+            got = fails(cand) if len(cand) < len(cur) else None
+            if got is not None:
+                cur = got
+                hi = min(lo, len(cur) - 1)
+            else:
+                hi = lo
+    return cur
+
+
+def evaluate(ctx, bins, names, idx, seqs, record=True, modes=None):
+    """bins: [(build name, binary)]; every sequence runs on every build; the model / the specification run once"""
+    impls = {b: run_lines_resilient(binp, [req_of(s) for s in seqs]) for b, binp in bins}
     lreqs, keep = [], []
-    for s, r in zip(seqs, impl):
-        if "panic" in r or "crash" in r or "bad_op" in r or "bad_line" in r:
-            report_violation(ctx, "ops-panics", {"steps": s, "impl": r, "kind": "operation sequence panics",
-                                                 "harness": "ctx_h ops"})
+    for i, s in enumerate(seqs):
+        bad = False
+        for b, _ in bins:
+            r = impls[b][i]
+            if is_panic(r):
+                report_violation(ctx, "ops-panics" + ("" if b == "plain" else "@" + b),
+                                 {"steps": s, "impl": r, "kind": "operation sequence panics", "build": b,
+                                  "harness": f"ctx_h ops ({b} build)"})
+                bad = True
+        if bad:
             continue
         lreqs.append({"op": "ctx.ops", "steps": to_model(s, idx)})
-        keep.append((s, r))
+        keep.append(i)
     model = lean_driver(lreqs)
     mism = 0
-    for (s, r), m in zip(keep, model):
+    for i, m in zip(keep, model):
+        s = seqs[i]
         if m["model"] != m["spec"]:
             raise HarnessError("model violates its own proved specification: " + json.dumps(s))
-        levels, mlevels = [], []
-        spec_bad = model_bad = None
-        for k, (st, o) in enumerate(zip(s, r["obs"])):
-            io, err = impl_obs(st, o, levels, idx, mlevels)
-            so, mo = m["spec"][k], m["model"][k]
-            if isinstance(io, dict) and "plural0" in io:
-                # `t_plural!` accessors show the plural category of 0 in the locale the spec / the model says is current
-                so = {"plural0": CAT0[names[so["locale"]]]} if isinstance(so, dict) and "locale" in so else so
-                mo = {"plural0": CAT0[names[mo["locale"]]]} if isinstance(mo, dict) and "locale" in mo else mo
-            if err or io != so:
-                spec_bad = (k, io, so, err)
-                break
-            if io != mo:
-                model_bad = (k, io, mo)
-                break
-        if not spec_bad and not model_bad:
-            fin = [idx[x] for x in r["final"]]
-            if fin != m["final"]:
-                model_bad = ("final", fin, m["final"])
+        verdicts = {}
+        for b, _ in bins:
+            r = impls[b][i]
+            want = (b == "effects")
+            if r.get("effects") is not want:
+                raise HarnessError(f"the {b} build of ctx_h reports effects={r.get('effects')!r}")
+            verdicts[b] = judge(s, r, m, names, idx)
+            if record:
+                ctx.count("sequences_on_build=" + b)
+                polled = [o["polled"] for st, o in zip(s, r["obs"]) if st["op"] == "tick" and isinstance(o, dict) and "polled" in o]
+                ctx.count(f"ticks_on_build={b}", len(polled))
+                ctx.count(f"ticks_that_ran_tasks_on_build={b}", sum(1 for x in polled if x > 0))
+                ctx.count(f"tasks_polled_at_ticks_on_build={b}", sum(polled))
         if record:
             ctx.seen(s, nontrivial=nontrivial(s))
-            ctx.count("len<=%d" % (10 if len(s) <= 10 else 50 if len(s) <= 50 else 100 if len(s) <= 100 else 200 if len(s) <= 200 else 1000))
-            for st in s:
+            ctx.count("len<=%d" % next(b for b in (10, 50, 100, 200, 400, 10 ** 6) if len(s) <= b))
+            if modes is not None:
+                ctx.count("tick_mode=" + modes[i])
+            for k, st in enumerate(s):
                 ctx.count("op=" + st["op"])
                 if st["op"] == "make_closure":
                     ctx.count("closure_kind=" + st["kind"])
                 if st["op"] == "make_memo":
                     ctx.count("memo_kind=" + st["kind"])
+                if st["op"] == "tick" and k > 0 and s[k - 1]["op"] in HOT:
+                    ctx.count("tick_right_after=" + s[k - 1]["op"])
+                if st["op"] in ("set", "set_untracked") and k > 0 and s[k - 1]["op"] in HOT - {"set", "set_untracked"}:
+                    ctx.count("set_in_the_turn_of_a_creation")
             ctx.count("contexts", m["contexts"])
             ctx.count("views", len(m["final"]))
-        if spec_bad:
-            k, io, so, err = spec_bad
+        failing = [b for b, _ in bins if verdicts[b][0]]
+        if failing:
+            # signature: the operation whose observation is wrong; "@effects" when only the build with running effects fails
+            b = "plain" if "plain" in failing else failing[0]
+            k, io, so, err = verdicts[b][0]
+            sig = "ops:" + s[k]["op"] + ("" if "plain" in failing else "@" + b)
             names_of = lambda ob: ob if not isinstance(ob, dict) or "locale" not in ob else {"locale": names[ob["locale"]]}
-            report_violation(ctx, "ops:" + s[k]["op"], {
+            payload = {
                 "steps": s[:k + 1], "failing_step": k, "got": names_of(io), "expected_by_spec": names_of(so), "why": err,
-                "harness": "ctx_h ops", "replay_cmd": "./check C16 --replay <this file>"})
-        elif model_bad:
+                "build": b, "builds_failing": failing, "harness": f"ctx_h ops ({b} build)",
+                "replay_cmd": "./check C16 --replay <this file>"}
+            fresh = (not any(f["kind"] == "finding" and f["property"] == ctx.pid and f["sig"] == sig for f in load_findings())
+                     and not any(v["sig"] == sig for v in ctx.violations))
+            if fresh and record:
+                try:
+                    small = minimise(dict(bins)[b], names, idx, s[:k + 1], s[k]["op"])
+                    payload["minimised_steps"] = small
+                    print("C16 minimal failing sequence (%s build): %s" % (b, json.dumps(small)), flush=True)
+                except Exception as e:       # minimisation is a convenience, never a reason to lose the violation
+                    payload["minimise_error"] = repr(e)
+            report_violation(ctx, sig, payload)
+        elif any(verdicts[b][1] for b, _ in bins):
             mism += 1
-            if not any(b["name"].startswith("R/ops") for b in ctx.broken):
-                ctx.broken.append({"kind": "correspondence", "name": "R/ops:step", "detail": {"steps": s, "at": model_bad}})
+            if not any(x["name"].startswith("R/ops") for x in ctx.broken):
+                b = [b for b, _ in bins if verdicts[b][1]][0]
+                ctx.broken.append({"kind": "correspondence", "name": "R/ops:step", "detail": {"steps": s, "build": b, "at": verdicts[b][1]}})
     return mism
+
+
+def selftest(bins):
+    """effects must run in the effects build and must not in the plain one (else the two builds test the same thing)"""
+    ran = {}
+    for b, binp in bins:
+        (r,), crash = run_lines(binp, [{"op": "effects_selftest"}])
+        if crash or "phases" not in r:
+            raise HarnessError(f"effects_selftest failed on the {b} build: {r!r} {crash!r}")
+        ph = {p["at"]: p for p in r["phases"]}
+        e = [ph[a]["effect"] for a in ("created", "tick", "set", "set_tick")]
+        re_ = [ph[a]["render_effect"] for a in ("created", "tick", "set", "set_tick")]
+        iso = [ph[a]["isomorphic"] for a in ("created", "tick", "set", "set_tick")]
+        if iso != [[], [0], [0], [0, 7]]:
+            raise HarnessError(f"{b} build: the executor does not run isomorphic effects at ticks only: {iso!r}")
+        if b == "effects":
+            if r["feature_effects"] is not True or e != [[], [0], [0], [0, 7]] or re_ != [[0], [0], [0], [0, 7]]:
+                raise HarnessError(f"effects build of ctx_h does not run effects at ticks: effect {e!r} render_effect {re_!r}")
+        else:
+            if r["feature_effects"] is not False or any(e) or any(re_):
+                raise HarnessError(f"plain build of ctx_h runs effects: effect {e!r} render_effect {re_!r} (target dirs mixed?)")
+        ran[b] = {"effect": e[-1], "render_effect": re_[-1], "isomorphic": iso[-1]}
+    return ran
+
+
+def build_all(ctx):
+    bins = []
+    for b, feats, variant in BUILDS:
+        binp = cargo_build(ctx, "ctx_h", features=feats, variant=variant)
+        if binp is None:
+            return None
+        bins.append((b, binp))
+    return bins
 
 
 def run(ctx):
     lean_check(ctx, "I18nVerif.Theorems.C16", "C16_")
-    binr = cargo_build(ctx, "ctx_h")
-    if binr is None:
+    lean_check(ctx, "I18nVerif.Theorems.C16Ticks", "C16_")
+    bins = build_all(ctx)
+    if bins is None:
         finish_broken(ctx, "harness does not build; nothing could be run")
         return
-    (loc,), _ = run_lines(binr, [{"op": "locales"}])
+    ctx.extra["effects_selftest"] = selftest(bins)
+    (loc,), _ = run_lines(bins[0][1], [{"op": "locales"}])
     names = [l["name"] for l in loc["locales"]]
     idx = {n: i for i, n in enumerate(names)}
     rng = ctx.rng
-    seqs = corpus(names)
-    nseq = ctx.budget(1500, 20000)
+    seqs, modes = [], []
+    # hand-written sequences: as they are (no tick until the closing one), a tick after every step, hot, random
+    for s in corpus(names) + tick_corpus(names):
+        for mode in ("none", "each", "hot", "random"):
+            seqs.append(close_sequence(add_ticks(rng, s, mode)))
+            modes.append(mode)
+    ncorpus = len(seqs)
+    nseq = ctx.budget(1200, 16000)
     for i in range(nseq):
         # a third short (dense interaction on few contexts), the rest up to 200 operations
-        seqs.append(gen_sequence(rng, names, 40 if i % 3 == 0 else 200, tracked_only=(i % 4 == 1)))
+        base = gen_sequence(rng, names, 40 if i % 3 == 0 else 200, tracked_only=(i % 4 == 1))
+        mode = TICK_MODES[i % len(TICK_MODES)]
+        seqs.append(close_sequence(add_ticks(rng, base, mode)))
+        modes.append(mode)
     mism = 0
     chunk = 1000
     for a in range(0, len(seqs), chunk):
-        mism += evaluate(ctx, binr, names, idx, seqs[a:a + chunk])
-    ctx.sample({"steps": seqs[len(corpus(names))][:12]})
+        mism += evaluate(ctx, bins, names, idx, seqs[a:a + chunk], modes=modes[a:a + chunk])
+    ctx.sample({"steps": seqs[ncorpus][:16]})
     ctx.extra["impl_vs_model_mismatches"] = mism
     ctx.extra["exhaustive"] = False
     ctx.extra["level_note"] = (
         "proof, thin: the C16 theorems (refinement of the cell machine to the history specification, isolation, scoped "
-        "views share the cell) hold for every operation sequence, but the model is deliberately tiny (an I18nContext is a "
-        "Copy handle on one RwSignal). Trusted: leptos' reactive runtime (RwSignal get/set/write_untracked atomicity, "
-        "re-execution of t! closures placed in a view when the signal notifies — the harness re-invokes closures itself). "
-        "The correspondence (real contexts, every observation of every step compared) carries most of the weight. "
-        "Not executed: hydrate/csr builds, the RenderEffect that forwards a caller-wired initial-locale signal (the "
-        "property's stated exception), cookies (disabled in these sequences; their interplay with creation is C15).")
+        "views share the cell, ticks are invisible) hold for every operation sequence, but the model is deliberately tiny (an "
+        "I18nContext is a Copy handle on one RwSignal; a turn of the event loop is the identity). Trusted: leptos' reactive runtime "
+        "(RwSignal get/set/write_untracked atomicity, re-execution of t! closures placed in a view when the signal notifies — the "
+        "harness re-invokes closures itself; effect scheduling). The correspondence (real contexts on two builds — effects inert / "
+        "effects running on a deterministic executor —, every observation of every step compared) carries most of the weight. "
+        "Not executed: real wasm csr/hydrate builds (effects run natively here), a caller-wired initial-locale signal that CHANGES "
+        "(the property's stated exception: the harness has no operation for it, every initial locale is a constant Signal::stored), "
+        "cookies (disabled in these sequences; their interplay with creation is C15).")
     ctx.assumptions += [
         "leptos reactive runtime trusted (RwSignal atomic get/set; closures are re-invoked by the harness, not by a renderer)",
-        "cookies disabled for the contexts of the sequences; sub-contexts created with constant (non-reactive) initial locale",
+        "cookies disabled for the contexts of the sequences; sub-contexts created with constant (non-reactive) initial locale: the property's exception 'unless the caller wired an initial-locale signal' is never exercised, in either build",
         "initial locale of new_root / provide_root taken from an exact-name Accept-Language header (resolution itself is property C15)",
         "'reactive accessor' = leptos' lazy Memo: cached value, invalidated by tracked sets only (RwSignal::set notifies even for an equal value), recomputed at the next read — modelled explicitly and compared on every read_memo",
         "which context use_i18n() returned is identified through the public API (distinguishable untracked write, read through one representative view per context, restore)",
         "providers are the real <I18nContextProvider>/<I18nSubContextProvider> components of the declare_locales! module, built with view! (not rendered to HTML); islands variants not built",
-        "single-threaded deterministic executor for leptos' isomorphic effects in the harness",
+        "single-threaded deterministic executor in the harness: spawned effect futures are polled at `tick` steps only (FIFO), which stands for 'a turn of the browser event loop'; effects build = leptos `ssr` + reactive_graph `effects` on the native target, not wasm",
     ]
-    finish_broken(ctx, f"{len(seqs)} operation sequences, every observation compared with the specification")
+    finish_broken(ctx, f"{len(seqs)} operation sequences on {len(bins)} builds, every observation compared with the specification")
     write_evidence(ctx, RULE)
 
 
 def replay(ctx, payload):
-    binr = cargo_build(ctx, "ctx_h")
-    if binr is None:
+    bins = build_all(ctx)
+    if bins is None:
         raise HarnessError("harness does not build")
-    (loc,), _ = run_lines(binr, [{"op": "locales"}])
+    selftest(bins)
+    (loc,), _ = run_lines(bins[0][1], [{"op": "locales"}])
     names = [l["name"] for l in loc["locales"]]
     idx = {n: i for i, n in enumerate(names)}
-    evaluate(ctx, binr, names, idx, [payload["steps"]], record=False)
+    evaluate(ctx, bins, names, idx, [payload["steps"]], record=False)
     print(json.dumps({"steps": len(payload["steps"]), "violates": bool(ctx.violations)}))
